@@ -23,3 +23,5 @@ import RedkaModel.Props.C01
 #print axioms Redka.Props.C01.incrfloat_roundtrip
 #print axioms Redka.Props.C01.incrfloat_nonnumeric_notrace
 #print axioms Redka.Float.parse_format
+#print axioms Redka.Props.C01.float_parse_correctly_rounded
+#print axioms Redka.Props.C01.float_sum_correctly_rounded
